@@ -86,9 +86,10 @@ CHECKS["C07"] = dict(
          "single round robin quick, double thorough) is evaluated by the real Errors objective; Trace_TTP demands "
          "zero <=> feasible, count = documented count where the documentation is unambiguous, 0 <= count <= declared "
          "bound. Random plans n=4..12, random settings, seasons longer than 127 days.",
-    note="Two genuine defects found and fixed (final too-short streak; out-of-bounds pair index on self-play); one "
-         "open known finding (declared upper bound exceeded when minimum limits are above 1). Exhaustive only for 2 "
-         "and 4 teams.")
+    note="Three genuine defects found and fixed (final too-short streak; out-of-bounds pair index on self-play; "
+         "declared upper bound exceeded by inconsistent plans and by minimum limits above 1 - first recorded as a "
+         "known finding, then repaired). Exhaustive only for 2 and 4 teams; larger n by random, circle-method, "
+         "error-minimising and error-maximising local-search families.")
 
 CHECKS["C08"] = dict(
     category="model_checking", design_ref="DESIGN.md section 2 (C08)",
